@@ -642,3 +642,32 @@ func viewFuncs(p *core.Prog, view *ssa.Function) []*ssa.Function {
 	add(view)
 	return out
 }
+
+// retCase is one way a return instruction can be reached with one particular result value: a result that is
+// merged by phis at the return (single-return style) is split into the values of the incoming paths, each
+// with the instruction that ends that path.
+type retCase struct {
+	Val ssa.Value
+	At  ssa.Instruction // the return itself, or the terminator of the predecessor the value comes from
+}
+
+func retCases(ret *ssa.Return, i int) []retCase {
+	v := returnValue(ret, i)
+	var out []retCase
+	var expand func(v ssa.Value, blk *ssa.BasicBlock, at ssa.Instruction, depth int)
+	expand = func(v ssa.Value, blk *ssa.BasicBlock, at ssa.Instruction, depth int) {
+		ph, ok := v.(*ssa.Phi)
+		if !ok || ph.Block() != blk || depth > 4 {
+			out = append(out, retCase{v, at})
+			return
+		}
+		// only when nothing but phis (and pure value computations) precede `at` in blk would the split be exact;
+		// the split is still sound for "on every path to this value" rules: each case names a prefix of the path
+		for k, e := range ph.Edges {
+			pred := blk.Preds[k]
+			expand(e, pred, pred.Instrs[len(pred.Instrs)-1], depth+1)
+		}
+	}
+	expand(v, ret.Block(), ret, 0)
+	return out
+}
